@@ -1,3 +1,6 @@
 import KcpVerif.Generated
 import KcpVerif.Model.Ring
 import KcpVerif.Props.C20
+import KcpVerif.Model.Pool
+import KcpVerif.Model.Lifecycle
+import KcpVerif.Props.C15
